@@ -103,6 +103,7 @@ AssignStmt = _node('AssignStmt', 'lhs rhs blocking')
 IfStmt = _node('IfStmt', 'cond then els')
 CaseStmt = _node('CaseStmt', 'kind expr items')    # items: [(labels|None, stmt)]
 NullStmt = _node('NullStmt', '')
+ForStmt = _node('ForStmt', 'init cond step body')
 # module items
 Port = _node('Port', 'direction is_reg signed range name init')
 Decl = _node('Decl', 'kind signed range names')    # names: [(name, array_range|None, init|None, line)]
@@ -766,7 +767,20 @@ class Parser(object):
                         items.append((labels, self.parse_stmt()))
                 self.adv()
                 return CaseStmt(k, e, items, line=line)
-            if k in ('for', 'while', 'repeat', 'forever', 'wait', 'disable', 'fork', 'force',
+            if k == 'for':
+                # for (i = 0; i < N; i = i + 1) stmt   -- blocking init/step assignments only
+                self.adv()
+                self.expect_op('(', "after 'for'")
+                init = self.parse_assign_stmt(semi=True)
+                cond = self.parse_expr()
+                self.expect_op(';', 'after for condition')
+                step = self.parse_assign_stmt(semi=False)
+                self.expect_op(')', 'closing for header')
+                if not (init.blocking and step.blocking):
+                    self.err('for loop init/step must be blocking assignments')
+                body = self.parse_stmt()
+                return ForStmt(init, cond, step, body, line=line)
+            if k in ('while', 'repeat', 'forever', 'wait', 'disable', 'fork', 'force',
                      'release', 'deassign', 'assign'):
                 self.err("statement '%s' is not supported" % k)
             if k in ('end', 'else', 'endcase', 'endmodule', 'default'):
@@ -778,7 +792,7 @@ class Parser(object):
             self.err('system task %s is not supported' % t.val)
         self.err('unexpected %s at start of statement' % self.describe())
 
-    def parse_assign_stmt(self):
+    def parse_assign_stmt(self, semi=True):
         line = self.t.line
         lhs = self.parse_lvalue()
         if self.accept_op('='):
@@ -790,7 +804,8 @@ class Parser(object):
         if self.is_op('#') or self.is_op('@'):
             self.err('intra-assignment timing controls are not supported')
         rhs = self.parse_expr()
-        self.expect_op(';', 'after assignment')
+        if semi:
+            self.expect_op(';', 'after assignment')
         return AssignStmt(lhs, rhs, blocking, line=line)
 
     def parse_lvalue(self):
